@@ -150,9 +150,46 @@ macro_rules! version_common {
                     }
                     (list, w, inb, runaway)
                 });
+                // the iterator's other public entry points, on fresh iterators and on one that has been
+                // advanced to its end: size_hint, ExactSizeIterator::len, clone + count, collect
+                let api = match &r {
+                    Ok((list, _, _, false)) => {
+                        let n = list.len();
+                        let a = guarded(WD_MS, || {
+                            let it = $p::ChunksIter::new(data, nc);
+                            let hint = it.size_hint();
+                            let len = it.len();
+                            let count = it.clone().count();
+                            let collected: Vec<$p::Chunk> = it.clone().collect();
+                            let mut adv = it;
+                            let mut hints_ok = true;
+                            let mut k = 0usize;
+                            while adv.next().is_some() {
+                                k += 1;
+                                let h = adv.size_hint();
+                                hints_ok &= h.0 <= n && h.1.map(|u| u <= n).unwrap_or(false);
+                                if k > n + 1 {
+                                    break;
+                                }
+                            }
+                            let end_hint = adv.size_hint();
+                            let mut v: Vec<$p::Chunk> = Vec::new();
+                            v.extend($p::ChunksIter::new(data, nc));
+                            (hint, len, count, collected.len(), v.len(), end_hint, hints_ok)
+                        });
+                        match a {
+                            Ok((hint, len, count, coll, ext, end_hint, hints_ok)) => json!({
+                                "r": "ok", "lo": hint.0, "hi": hint.1.map(|x| x as i64).unwrap_or(-1), "len": len, "count": count,
+                                "collect": coll, "extend": ext, "end_lo": end_hint.0,
+                                "end_hi": end_hint.1.map(|x| x as i64).unwrap_or(-1), "bounded": hints_ok}),
+                            Err(m) => panic_json(&m),
+                        }
+                    }
+                    _ => skip(),
+                };
                 match r {
                     Ok((_, _, inb, true)) => (json!({"r": "runaway"}), inb),
-                    Ok((list, w, inb, false)) => (json!({"r": "ok", "list": list, "w": names(&w)}), inb),
+                    Ok((list, w, inb, false)) => (json!({"r": "ok", "list": list, "w": names(&w), "api": api}), inb),
                     Err(msg) => (panic_json(&msg), true),
                 }
             }
@@ -1334,6 +1371,58 @@ fn drive(seed: u64, tier: &str, parts: &str, emit_all: &mut dyn FnMut(&Value)) {
                 dg.extend_from_slice(&z);
                 for h in hints {
                     emit_if(c06, emit_all, &rd_case(v, &dg, h, if len % 2 == 0 { 1400 } else { 2048 }));
+                }
+            }
+        }
+    }
+
+    // (10) chunk packets whose header announces fewer / more chunks than the area holds (the iterator's
+    //      size_hint / len / collect are observed on every accepted chunk packet), and close reasons at
+    //      every length around the 127-byte limit, with / without NUL, with trailing data, with a token,
+    //      in the accepted -> re-written -> re-read path; both versions, every hint
+    for v in [6u64, 7] {
+        let hs = if v == 6 { 3usize } else { 7 };
+        let hints: &[&str] = if v == 6 { &["none", "true", "false"] } else { &["none"] };
+        let cl = json!([
+            {"vital": false, "seq": 0, "resend": false, "data": [1, 2, 3]},
+            {"vital": true, "seq": 700, "resend": true, "data": []},
+            {"vital": true, "seq": 5, "resend": false, "data": bj(&[9u8; 20])},
+        ]);
+        let area = if v == 6 { c6::build_area(&cl) } else { c7::build_area(&cl) }.unwrap_or_default();
+        for nc in [0u8, 1, 2, 3, 4, 255] {
+            for with_tok in [false, true] {
+                let mut dg = vec![0u8; hs];
+                dg[2] = nc;
+                if v == 7 {
+                    dg[3..7].copy_from_slice(&[9, 8, 7, 6]);
+                }
+                dg.extend_from_slice(&area);
+                if with_tok {
+                    dg.extend_from_slice(&[1, 2, 3, 4]);
+                }
+                for h in hints {
+                    emit_if(c06, emit_all, &rd_case(v, &dg, h, 2048));
+                }
+            }
+        }
+        for len in [0usize, 1, 2, 3, 4, 125, 126, 127, 128, 129, 200] {
+            for tail in 0..4 {
+                // 0: NUL-terminated, 1: no NUL, 2: NUL + two more bytes, 3: NUL + token
+                let mut dg = vec![0u8; hs];
+                dg[0] = if v == 6 { 0x10 } else { 0x04 };
+                if v == 7 {
+                    dg[3..7].copy_from_slice(&[9, 8, 7, 6]);
+                }
+                dg.push(4);
+                dg.extend((0..len).map(|i| b'a' + (i % 26) as u8));
+                match tail {
+                    0 => dg.push(0),
+                    1 => {}
+                    2 => dg.extend_from_slice(&[0, b'x', b'y']),
+                    _ => dg.extend_from_slice(&[0, 1, 2, 3, 4]),
+                }
+                for h in hints {
+                    emit_if(c06, emit_all, &rd_case(v, &dg, h, 2048));
                 }
             }
         }
